@@ -480,6 +480,20 @@ func groupNoCopy() {
 	t.add("InV", sref(s), 7, "default")
 	t.add("L", list(ptr(sref(s))), 1, "default")
 	t.add("W", binary(), 3, "default", "nocopy")
+	// nocopy fields in a struct with declared (non-empty) defaults: a zero-length value must still
+	// override the default
+	d := newStruct("nocopy")
+	d.HasInit = true
+	f := d.add("S", prim("string"), 1, "default", "nocopy")
+	f.Dflt, f.DfltVal, _ = dfltFor(f.Ty, false)
+	f = d.add("O", prim("string"), 2, "optional", "nocopy")
+	f.Dflt, f.DfltVal, _ = dfltFor(f.Ty, false)
+	f = d.add("C", prim("string"), 3, "default")
+	f.Dflt, f.DfltVal, _ = dfltFor(f.Ty, false)
+	o := newStruct("nocopy")
+	o.add("In", sref(d), 1, "default")
+	o.add("Ps", list(ptr(sref(d))), 2, "default")
+	o.add("M", mapOf(prim("int32"), sref(d)), 3, "default")
 }
 
 // one writer with many small fields of few distinct wire sizes (4, 5, 7, 11 bytes and short strings)
@@ -540,6 +554,48 @@ func groupShapes() {
 	nr.Writer = nw.Sid
 	nr.add("Sub", ptr(sref(e3)), 1, "optional")
 	nr.add("Subs", list(ptr(sref(e1))), 2, "default")
+}
+
+// structs with more declared fields than an int8 / uint8 position table can index (field ids on both
+// sides of 128 and 256 positions), plain and with the holder, and nested
+func groupWide() {
+	kinds := []*Ty{prim("int32"), prim("string"), prim("bool"), prim("int64"), prim("int16"), prim("float64"), prim("int8")}
+	for _, n := range []int{130, 300} {
+		s := newStruct("wide")
+		for i := 0; i < n; i++ {
+			req := "default"
+			if i%17 == 5 {
+				req = "optional"
+			}
+			if i%61 == 7 {
+				req = "required"
+			}
+			s.add(fmt.Sprintf("F%d", i+1), kinds[i%len(kinds)], i+1, req)
+		}
+		if n == 130 {
+			s.addHolder()
+		}
+		o := newStruct("wide")
+		o.add("W", ptr(sref(s)), 1, "optional")
+		o.add("L", list(ptr(sref(s))), 2, "default")
+	}
+}
+
+// by-value structs whose only field is a by-value struct that is itself pointer-shaped (stored
+// directly in the interface word, at any wrapping depth)
+func groupWrapped() {
+	for _, t := range []*Ty{ptr(sref(leaf)), mapOf(prim("string"), prim("int32")), ptr(prim("int32"))} {
+		in := newStruct("byvalue")
+		req := "default"
+		if t.K == "ptr" {
+			req = "optional"
+		}
+		in.add("Head", t, 1, req)
+		w1 := newStruct("byvalue")
+		w1.add("In", sref(in), 1, "default")
+		w2 := newStruct("byvalue")
+		w2.add("In", sref(w1), 1, "required")
+	}
 }
 
 // optional-pointer forms of string and binary, copied and nocopy (C14: "in both its plain and
@@ -1233,6 +1289,8 @@ func main() {
 	groupPtrBinary()
 	groupEvoMix()
 	groupShapes()
+	groupWide()
+	groupWrapped()
 	groupEvolution()
 	groupSpellings()
 	groupInvalid()
